@@ -24,11 +24,13 @@ import (
 func main() {
 	repo := flag.String("repo", "/repo", "repository root")
 	shim := flag.String("shim", "/verif/mc/shim/vsync.go", "shim source")
+	shimAtomic := flag.String("shimatomic", "/verif/mc/shimatomic/vatomic.go", "sync/atomic shim source")
 	out := flag.String("out", "/verif/.build", "output directory")
 	flag.Parse()
 
 	modPath := modulePath(filepath.Join(*repo, "go.mod"))
 	shimImport := modPath + "/verifsync"
+	atomicImport := modPath + "/verifatomic"
 	replace := map[string]string{}
 	ovDir := filepath.Join(*out, "overlay")
 	os.RemoveAll(ovDir)
@@ -41,7 +43,7 @@ func main() {
 		}
 		name := d.Name()
 		if d.IsDir() {
-			if path != *repo && (strings.HasPrefix(name, ".") || name == "testdata" || name == "vendor" || name == "verifsync") {
+			if path != *repo && (strings.HasPrefix(name, ".") || name == "testdata" || name == "vendor" || name == "verifsync" || name == "verifatomic") {
 				return filepath.SkipDir
 			}
 			return nil
@@ -58,14 +60,20 @@ func main() {
 		changed := false
 		for _, imp := range f.Imports {
 			p, _ := strconv.Unquote(imp.Path.Value)
-			if p != "sync" {
-				continue
+			switch p {
+			case "sync":
+				imp.Path.Value = strconv.Quote(shimImport)
+				if imp.Name == nil {
+					imp.Name = ast.NewIdent("sync")
+				}
+				changed = true
+			case "sync/atomic":
+				imp.Path.Value = strconv.Quote(atomicImport)
+				if imp.Name == nil {
+					imp.Name = ast.NewIdent("atomic")
+				}
+				changed = true
 			}
-			imp.Path.Value = strconv.Quote(shimImport)
-			if imp.Name == nil {
-				imp.Name = ast.NewIdent("sync")
-			}
-			changed = true
 		}
 		if !changed {
 			return nil
@@ -82,6 +90,7 @@ func main() {
 	})
 	must(err)
 	replace[filepath.Join(*repo, "verifsync", "vsync.go")] = *shim
+	replace[filepath.Join(*repo, "verifatomic", "vatomic.go")] = *shimAtomic
 	js, _ := json.MarshalIndent(map[string]any{"Replace": replace}, "", " ")
 	must(os.WriteFile(filepath.Join(*out, "overlay.json"), js, 0o644))
 	fmt.Fprintf(os.Stderr, "overlaytool: %d file(s) rewritten to use %s\n", rewritten, shimImport)
